@@ -98,6 +98,8 @@ type World struct {
 
 	calls []*Call // northbound calls in flight
 
+	stepWrap func(f func()) // when set, Step runs the reconcile call inside it (C08: lets the controllers pass the gates)
+
 	mu      sync.Mutex
 	arrived []Token // tokens delivered by watchers since the last TakeTokens, in arrival order
 }
@@ -274,7 +276,13 @@ func (w *World) Step(ctrl, id string) StepResult {
 				res.Panic = notePanic(r)
 			}
 		}()
-		result, err := w.recs[ctrl].Reconcile(w.controllerID(ctrl, id))
+		var result controller.Result
+		var err error
+		if w.stepWrap != nil {
+			w.stepWrap(func() { result, err = w.recs[ctrl].Reconcile(w.controllerID(ctrl, id)) })
+		} else {
+			result, err = w.recs[ctrl].Reconcile(w.controllerID(ctrl, id))
+		}
 		if err != nil {
 			res.Err = err.Error()
 			res.Tokens = append(res.Tokens, Token{Ctrl: ctrl, ID: id, Src: "retry"})
